@@ -36,3 +36,8 @@ PROPS["C01"] = dict(pkg="stanza", test="TestVf_C01", race=False, level="explorat
     technique="runtime monitor: reflective value generator + parse-back equality, byte fix-point and metamorphic skeleton oracle",
     text="Values of Message, Presence, IQ, the seven stream-management elements, SASLAuth and Handshake are built by a reflective generator (interfaces filled from the live registry and closed alternative tables, generic Node trees with explicit namespaces, two harness extension types incl. one registered through the * alias): one single-path probe per field path to struct depth 6 (about 680 paths), every registered message/presence extension alone and in every ordered pair, and quick 5k / thorough 200k random combinations with hostile text. Each value is marshalled, parsed back with xml.Unmarshal and with NextPacket inside a stream, compared with a normalising comparator that collects every differing field, re-marshalled for the byte fix-point, and its raw token skeleton is compared with the skeleton of the same structure carrying placeholders instead of text (metamorphic injection oracle). Exploration: the input space is unbounded; the path probes make field coverage systematic.",
     note=TB, assumptions=["encoding/xml", "role table for name/raw-XML fields in harness/stanza/reflectkit_test.go"])
+PROPS["C02"] = dict(pkg="stanza", test="TestVf_C02", race=False, level="exploration", timeout=(300, 2400), floor=1000,
+    technique="runtime monitor: generator-known packet list + segmentation metamorphism + totality watchdog with input journal",
+    text="Grammar-generated streams (quick 2k, thorough 60k; client, component and WebSocket-framing headers; 1-12 top-level elements over every kind NextPacket knows; random addressing incl. foreign-namespace attributes named to/from/id/type; known children, registered extensions, unknown-namespace children nested up to depth 200/5000 whose descendants are named message/presence/iq/body/error... in jabber:client and other namespaces; CDATA, comments, PIs, character references) are read with successive NextPacket calls under six segmentations (whole, byte-wise, random chunks, each bare and behind the 32 KiB bufio reader the transports use). The i-th result must have the Go type and type/id/from/to/lang of the i-th element, results must not depend on the segmentation, unknown elements must give an error. Totality: every truncation of sampled streams plus quick 20k / thorough 2M mutated or random byte strings; panic, (nil,nil) or a call still running after 10 s is a violation.",
+    note=TB + " Only kind and addressing are asserted, nothing about what follows an error. Nesting is bounded below encoding/xml's own 10000-level limit.",
+    assumptions=["encoding/xml tokenizer", "generator's expected list"])
